@@ -57,7 +57,39 @@ type exchange struct {
 	clientWindow int
 }
 
+// logRing keeps the proxy's own log lines (error handler, body-copy errors) so
+// that an aborted exchange can be reported with the proxy's stated reason.
+type logRing struct {
+	mu    sync.Mutex
+	lines []string
+}
+
+func (l *logRing) Write(b []byte) (int, error) {
+	l.mu.Lock()
+	for _, ln := range strings.Split(strings.TrimRight(string(b), "\n"), "\n") {
+		if len(ln) > 400 {
+			ln = ln[:400] + "…"
+		}
+		l.lines = append(l.lines, time.Now().Format("15:04:05.000 ")+ln)
+	}
+	if len(l.lines) > 4000 {
+		l.lines = append([]string{}, l.lines[len(l.lines)-2000:]...)
+	}
+	l.mu.Unlock()
+	return len(b), nil
+}
+
+func (l *logRing) tail(n int) []string {
+	l.mu.Lock()
+	defer l.mu.Unlock()
+	if len(l.lines) < n {
+		n = len(l.lines)
+	}
+	return append([]string{}, l.lines[len(l.lines)-n:]...)
+}
+
 type world struct {
+	logs    logRing
 	run     *verdict.Run
 	be      *rig.Backend
 	px      [2]*rig.Proxy // [0] default, [1] -preserve-host
@@ -195,6 +227,7 @@ type witness struct {
 	Backend  any         `json:"backend_record,omitempty"`
 	Produced *Produced   `json:"backend_produced,omitempty"`
 	Got      *Got        `json:"client_received,omitempty"`
+	ProxyLog []string    `json:"proxy_log_tail,omitempty"`
 }
 
 func clipFields(fs [][2]string) [][2]string {
@@ -301,6 +334,9 @@ func (w *world) judge(x *exchange) {
 			}
 			byClass[f.class] = append(byClass[f.class], f.msg)
 		}
+	}
+	if len(order) > 0 {
+		wit.ProxyLog = w.logs.tail(12)
 	}
 	for _, c := range order {
 		ms := byClass[c]
@@ -509,6 +545,8 @@ func main() {
 		run.Inconclusive("cannot start proxy with -preserve-host: %v", err)
 		run.Finish()
 	}
+
+	rig.Quiet(&w.logs)
 
 	if run.ReplayFile != "" {
 		var wit witness
